@@ -18,8 +18,8 @@ Local Open Scope nat_scope.
 Definition custom_hashes : list (string * string) :=
   [ ("Addenda99.DateOfDeathField", "3e285e789e54")
   ; ("BatchHeader.EffectiveEntryDateField", "27f17b677db8")
-  ; ("FileHeader.ImmediateDestinationField", "70ceeab6f5f3")
-  ; ("FileHeader.ImmediateOriginField", "1f0804bcbda7")
+  ; ("FileHeader.ImmediateDestinationField", "f332511f84a1")
+  ; ("FileHeader.ImmediateOriginField", "1da7f3123d8e")
   ; ("FileHeader.FileCreationDateField", "15c475cdacb0")
   ; ("FileHeader.FileCreationTimeField", "96fc73e249a4")
   ; ("IATBatchHeader.ForeignExchangeReferenceField", "cd88a0d75af9") ].
